@@ -439,6 +439,10 @@ Definition chk_dsasign (c : CaseDS) : bool :=
 Definition CaseDV := (dsa_key * Z * Z * list Z * Z * bool)%type.
 Definition chk_dsaverify (c : CaseDV) : bool :=
   let '(key, r, s, data, w, impl) := c in Bool.eqb (dsa_verify key r s data w) impl.
+Definition CaseDB := (dsa_key * list Z * option (Z * Z) * list Z * Z * bool)%type.
+Definition chk_dsader (c : CaseDB) : bool :=
+  let '(key, sig, dec, data, w, impl) := c in
+  Bool.eqb (dsa_verify_bytes (fun _ => dec) key sig data (fun _ => w)) impl.
 Definition CaseX := (bool * list Z * list Z * option (list Z) * Z)%type.
 Definition chk_x (c : CaseX) : bool :=
   let '(is448, k, u, impl, code) := c in
@@ -662,7 +666,7 @@ def model_cases_worker(args):
                 impl, code = None, EXC_CODE.get(type(ex).__name__, 99)
             lits.append('(%s, %d, %d, %d, %s, %s, %d)' % (vlib.boollit(ver == (3, 4)), g, p, x, slit, vlib.optlit(impl, blit), code))
             meta.append(dict(fam=fam, p_bits=p.bit_length(), y=y if y < 2 ** 64 else 'big', ver=ver, code=code))
-    elif fam in ('dsasign', 'dsaverify'):
+    elif fam in ('dsasign', 'dsaverify', 'dsader'):
         import tlslite.utils.python_dsakey as pdk
         from tlslite.utils.cryptomath import invMod, isPrime
         from ecdsa.der import encode_sequence, encode_integer
@@ -692,7 +696,37 @@ def model_cases_worker(args):
             finally:
                 pdk.getRandomNumber = saved
             r, s_ = sigdecode_der(sig, q)
-            if fam == 'dsasign':
+            if fam == 'dsader':
+                from ecdsa.der import remove_sequence, remove_integer
+                m1 = bytearray(sig)
+                m1[rng.randrange(len(m1))] ^= 1 << rng.randrange(8)
+                for cls, sg in [('valid', sig), ('empty', b''), ('truncated', sig[:-1]), ('bitflip', bytes(m1)), ('leading-zero', b'\x00' + sig),
+                                ('trailing-after-seq', sig + b'\x05\x00'), ('trailing-in-seq', der_seq(r, s_, trailing=b'\x05\x00')),
+                                ('int-leading-zero', der_seq(r, s_, lead_zero=True)), ('long-length', der_seq(r, s_, long_len=True)),
+                                ('garbage', bytes(rng.randrange(256) for _ in range(rng.randrange(1, 12))))]:
+                    # what the external parser yields (the oracle `decode` of the model)
+                    try:
+                        body, rest = remove_sequence(sg)
+                        if rest:
+                            raise ValueError('rest')
+                        rr, rest = remove_integer(body)
+                        ss, rest = remove_integer(rest)
+                        if rest:
+                            raise ValueError('rest')
+                        dec = (rr, ss)
+                    except Exception:  # noqa
+                        dec = None
+                    try:
+                        impl = bool(key.verify(bytearray(sg), bytearray(data)))
+                    except Exception as ex:  # noqa
+                        impl = 'exc:' + type(ex).__name__
+                    if not isinstance(impl, bool):
+                        lits.append('(%s, %s, None, %s, 0, true)' % (klit, blit(sg), blit(data)))    # never agrees with the model
+                    else:
+                        lits.append('(%s, %s, %s, %s, %d, %s)' % (klit, blit(sg), 'None' if dec is None else '(Some (%d, %d))' % dec,
+                                                                 blit(data), invMod(dec[1], q) if dec else 0, vlib.boollit(impl)))
+                    meta.append(dict(fam=fam, cls=cls, impl=impl, decoded=dec is not None, qbits=qb))
+            elif fam == 'dsasign':
                 lits.append('(%s, %s, %d, %d, %d, %d)' % (klit, blit(data), k, invMod(k, q), r, s_))
                 meta.append(dict(fam=fam, qbits=qb, r0=(r == 0), s0=(s_ == 0)))
             else:
@@ -745,7 +779,7 @@ def model_cases_worker(args):
 FAMILIES = {'verify': ('CaseV', 'chk_verify'), 'verify-raw': ('CaseV', 'chk_verify'), 'encode': ('CaseE', 'chk_encode'),
             'pad': ('CaseP', 'chk_pad'), 'math': ('CaseM', 'chk_math'), 'sign': ('CaseS', 'chk_sign'),
             'ffdh': ('CaseF', 'chk_ffdh'), 'x': ('CaseX', 'chk_x'), 'dsasign': ('CaseDS', 'chk_dsasign'),
-            'dsaverify': ('CaseDV', 'chk_dsaverify')}
+            'dsaverify': ('CaseDV', 'chk_dsaverify'), 'dsader': ('CaseDB', 'chk_dsader')}
 
 
 # ------------------------------------------------------------------------------------------
@@ -831,6 +865,7 @@ def run(ctx):
         fam_n['verify-raw'] = 6 if quick else 30
         fam_n['dsasign'] = 30 if quick else 300
         fam_n['dsaverify'] = 12 if quick else 100
+        fam_n['dsader'] = 8 if quick else 60
         a_model = pool.map_async(model_cases_worker, [(f, rng.randrange(2 ** 31), k) for f, k in sorted(fam_n.items())], chunksize=1)
 
         # ---------------- fault injection (needs the baselines first)
@@ -888,7 +923,11 @@ def run(ctx):
                     found = ctx.violation('sig-accepted:%s:%s' % (r['kind'], cls.split(':', 1)[1]),
                                   'tlslite accepts a %s for a %s key (scheme=%s hash=%s %s)' % (cls, r['kind'], r.get('v_scheme'), r.get('v_hash'), r.get('detail', '')),
                                   dict(r, how='key.hashAndVerify(mut_sig or sig, mut_msg or msg, v_scheme, v_hash, v_slen) with tests/<key file>')) or found
-                if isinstance(got, tuple) and got[0] == 'exc':
+                if isinstance(got, tuple) and got[0] == 'exc' and r['kind'] == 'dsa' and r['want'] is False:
+                    found = ctx.violation('sig-verify-raises:dsa:%s' % cls.split(':', 1)[1],
+                                          'Python_DSAKey.hashAndVerify raises %s on a %s instead of returning False' % (got[1], cls),
+                                          dict(r, how='key.hashAndVerify(mut_sig or sig, mut_msg or msg, v_hash) with tests/<key file>')) or found
+                elif isinstance(got, tuple) and got[0] == 'exc':
                     ctx.notes.append('verify raised %s on %s (%s)' % (got[1], cls, r['kind'])) if len(ctx.notes) < 20 else None
                 if r.get('openssl') is True and r['want'] is False and got is not True:
                     ctx.notes.append('openssl accepts %s for %s/%s which tlslite rejects' % (cls, r['kind'], r.get('hash'))) if len(ctx.notes) < 30 else None
@@ -946,7 +985,9 @@ def run(ctx):
                     found = ctx.violation('bad-share-accepted:%s:%s' % (r['what'], r['cls']),
                                   '%s calc_shared_key accepts the invalid peer value class %s (version %s)' % (r['what'], r['cls'], r['ver']), r) or found
                 elif r['want'] == 'refused' and got[0] == 'exc':
-                    ctx.notes.append('%s %s: refused by %s (not TLSIllegalParameterException)' % (r['what'], r['cls'], got[1])) if len(ctx.notes) < 40 else None
+                    found = ctx.violation('bad-share-uncaught-exception:%s:%s' % (r['what'], r['cls']),
+                                          '%s calc_shared_key: invalid peer value class %s (version %s) escapes as %s instead of '
+                                          'TLSIllegalParameterException/TLSDecodeError' % (r['what'], r['cls'], r['ver'], got[1]), r) or found
                 elif r['want'] == 'agree' and got != ('agree',):
                     found = ctx.violation('kex-disagree:%s:%s' % (r['what'], r['cls']), '%s: the two sides (or openssl) derive different secrets: %r' % (r['what'], got), r) or found
         ctx.log('key-exchange classes: %d checks' % nk)
